@@ -31,7 +31,7 @@ GAdd ==
            /\ hist' = Append(hist, [op |-> "add", title |-> t, ns |-> ns, redirect |-> NoRedirect,
                                     body |-> body])
       \/ \E tgt \in RedirectTargets(ns) :
-           /\ tgt # Stored(ns, b)
+           /\ IsRedirectOf(tgt, ns, b)
            /\ AddPage(t, ns, tgt, "", "wikitext")
            /\ hist' = Append(hist, [op |-> "add", title |-> t, ns |-> ns, redirect |-> tgt,
                                     body |-> ""])
@@ -44,6 +44,13 @@ GSpec == GInit /\ [][GNext]_gvars
 Emit == /\ (hist = <<>> => PrintT(<<"ARGS", ToJson(ArgSeq)>>))
         /\ PrintT(<<"CASE", ToJson([hist |-> hist, cur |-> Table(cur), com |-> ComTable])>>)
 GenInv == Emit
+\* S_ configurations (namespace table of a site, MC_PageStore): the derived atom tables and the
+\* model-level verdicts on the table are printed once, for the harness to cross-check its transport
+SiteInv == hist = <<>> =>
+  PrintT(<<"SITE", ToJson([wellformed |-> TableWellFormed,
+                           code_meets_statement |-> (S_CodePfxNs = PfxNs),
+                           namespaces |-> SetToSeq(Namespaces),
+                           pfxns |-> PfxNs, canon |-> CanonPfx])>>)
 
 (* simulation: TLC evaluates invariants on every candidate successor, so only
    the final state of a walk prints, with the tables of all its prefixes
